@@ -39,6 +39,16 @@ def run_cases(cases, res, stratum):
                 r2 = x2 >> nn; new_codes = [1 if hi_ >= 1 else lo_] + list(codes[1:])
                 if lib.codes_of(x2) == new_codes:
                     obs['again'] = ([Fraction(t) / Fraction(2) ** r2.n_frac for t in lib.codes_of(r2)], [Fraction(t) / Fraction(2) ** (nf + n) for t in new_codes])
+            if arr and c['mode'] == 'expand' and (n + len(codes)) % 2 == 1 and not c.get('layoutT'):
+                # the operand of the second shift is itself the RESULT of an expand-mode shift (codes with trailing zero bits), rewritten through a view
+                lo_, hi_ = S.fmt_bounds(s, nw)
+                base = A.mk(fx, np, s, nw, nf, [(t >> 2) << 2 for t in codes], shape=(len(codes),), shifting='expand')
+                y_ = base >> (n % 2)
+                yc = lib.codes_of(y_); odd = 1 if (hi_ >= 1) else lo_
+                v_ = y_[0:1]; v_[0] = fx.Fxp(odd, y_.signed, y_.n_word, y_.n_frac, raw=True)
+                if lib.codes_of(y_) == [odd] + yc[1:]:
+                    r3 = y_ >> 1
+                    obs['again2'] = ([Fraction(t) / Fraction(2) ** r3.n_frac for t in lib.codes_of(r3)], [Fraction(t) / Fraction(2) ** (y_.n_frac + 1) for t in [odd] + yc[1:]])
         except Exception as e:
             res.fail(c, 'C14: a shift raised %s' % lib.exc_name(e), got=str(e)[:200]); continue
         pend.append((c, obs))
@@ -66,6 +76,8 @@ def run_cases(cases, res, stratum):
             res.fail(c, 'C14: a value view of the shifted result (get_val(), .real) is not code*2^-n_frac of the result', expected=([str(v) for v in lv], [str(v) for v in rv]), got=[[str(v) for v in w] for w in obs['views']]); continue
         if obs['val_is_array'] != (True, True):
             res.fail(c, 'C14: the raw value of a shifted result is not an array (a bare number)', expected=(True, True), got=obs['val_is_array']); continue
+        if 'again2' in obs and obs['again2'][0] != obs['again2'][1]:
+            res.fail(c, 'C14: the RESULT of an expand-mode shift, rewritten through a view and shifted right again, is not its value / 2 exactly', expected=[str(v) for v in obs['again2'][1]], got=[str(v) for v in obs['again2'][0]]); continue
         if 'again' in obs and obs['again'][0] != obs['again'][1]:
             res.fail(c, 'C14: x >> n in expand mode, repeated after the codes of x changed through a view, is not x / 2^n exactly', expected=[str(v) for v in obs['again'][1]], got=[str(v) for v in obs['again'][0]]); continue
         if c['mode'] == 'expand':
@@ -120,6 +132,8 @@ def shard(shard, nshards, rng, tier, extra):
                         for code in range(lo, hi + 1):
                             cases.append({'f': [s, nw, nf], 'codes': [code], 'n': n, 'mode': mode, 'elem': (code + n) % 3})
                         cases.append({'f': [s, nw, nf], 'codes': [rng.randint(lo, hi) for _ in range(3)], 'n': n, 'mode': mode})
+                        if s and nw >= 3:      # directed: -2^k before / after +2^k as the extremes of an array (the widest element is not the first of largest magnitude)
+                            k_ = 1 << (nw - 2); cases.append({'f': [s, nw, nf], 'codes': [-k_, k_], 'n': n, 'mode': mode}); cases.append({'f': [s, nw, nf], 'codes': [k_, 1, -k_], 'n': n, 'mode': mode})
     run_cases(cases, res, 'A:all-codes-small')
     cases = []
     for _ in range((7500 if tier == 'quick' else 60000) // nshards):
@@ -129,6 +143,7 @@ def shard(shard, nshards, rng, tier, extra):
         def code():
             return rng.choice([lo, hi, 0, 1, -1 if s else 1, lo + 1, hi - 1, rng.randint(lo, hi), (rng.randint(lo, hi) >> rng.randint(0, 6)) << rng.randint(0, 6)])
         cs = [max(lo, min(hi, code())) for _ in range(k)]
+        if s and k >= 2 and rng.random() < 0.15: j_ = rng.randint(0, nw - 2); cs[0], cs[1] = -(1 << j_), (1 << j_)       # (-2^j before +2^j)
         cases.append({'f': [s, nw, nf], 'codes': cs, 'n': n, 'mode': rng.choice(MODES), 'count': rng.choice(['int', 'int', 'np.int64', 'np.uint8']), 'elem': rng.choice([0, 0, 1, 2]), 'layoutT': len(cs) == 4 and rng.random() < 0.7, 'tmpl': rng.choice([None, None, None, 'fxp-s8/0', 'fxp-u12/6'])})
     run_cases(cases, res, 'B:boundary-random-to-32')
     # C: wider words (33..96) and large counts: the shifted code leaves int64 / uint64, object arrays of Python integers
